@@ -767,7 +767,14 @@ func (t *tokenizer) readEscapedChar(isClob bool) (rune, error) {
 		if isClob {
 			return 0, t.invalidChar('U')
 		}
-		return t.readHexEscapeSeq(8)
+		r, err := t.readHexEscapeSeq(8)
+		if err != nil {
+			return 0, err
+		}
+		if r < 0 || r > unicode.MaxRune {
+			return 0, &SyntaxError{"escape sequence is not a Unicode code point", t.pos - 10}
+		}
+		return r, nil
 	case 'u':
 		if isClob {
 			return 0, t.invalidChar('u')
